@@ -30,6 +30,7 @@ func worldOf(kv map[string]string) *world {
 	w := &world{sh: parseShape(kv["sh"]), ids: map[*Conf]int{}, ff: parseSet(kv["ff"]), cf: parseSet(kv["cf"]), rf: parseSet(kv["rf"]),
 		plugT: ifaceT, bad: kv["bad"] == "1" || kv["bad"] == "2", badKey: kv["bad"] == "2"}
 	w.vmin, _ = strconv.Atoi(kv["vmin"])
+	w.rich = kv["impl"] == "x"
 	for i, t := range strings.Split(kv["d"], "/") {
 		if i < 3 {
 			w.d[i], _ = strconv.Atoi(t)
